@@ -89,7 +89,8 @@ def build_request(variant, pseed, cseed=0):
         bcfg = {"max_blocks": 2, "max_bro": 2, "max_cb": 200}
         while True:
             req, exp, info = c05.gen_blocks_request(ch, bcfg, ancestor=anc)
-            if info["nblocks"] == 2 and not info["tiny"] and (anc or info["nbro_total"] >= 3):
+            if info["nblocks"] == 2 and not info["tiny"] and (
+                    anc or (info["nbro_total"] >= 3 and len(info["brothers"][0]) >= 2)):
                 break
         exp["stop_after"] = None
         exp["ask_brothers"] = None if anc else [True]
@@ -199,7 +200,9 @@ def run_one(ch, cfg):
                      "fault-free run answered %r (%r)" % (d["rep"], d["exc"])))
         return _res(viol, None, (variant, "dry"), False, {}, {"variant": variant})
     kind = d["kinds"][ch.draw(len(d["kinds"]), "step-kind")]
-    k = d["first_of"][kind]
+    # enumerated cases address the first exchange of the kind (draw value 0); seeded ones any of them
+    occ = [i for i, st_ in enumerate(d["steps"]) if st_ == kind]
+    k = occ[ch.draw(len(occ), "occurrence")]
     oc = ch.weighted([(4, OC_NAMED), (3, OC_ANY), (2, OC_LINK), (2, OC_WRONGOP), (1, OC_BENIGN)],
                      "outcome-class")
     sw = None
@@ -316,9 +319,9 @@ class _Enum:
         if j < len(self.sw_list):
             sw = self.sw_list[j]
             # weighted() maps a raw draw to a class: OC_ANY occupies raw values 4..6
-            return [vi, 0, ki, 4, sw]
+            return [vi, 0, ki, 0, 4, sw]
         # OC_LINK occupies raw values 7..8
-        return [vi, 0, ki, 7, j - len(self.sw_list)]
+        return [vi, 0, ki, 0, 7, j - len(self.sw_list)]
 
 
 _ENUM = {}
